@@ -1,7 +1,7 @@
 """C06 — histogram fill puts every value into exactly the right cell and conserves weight.
 
 Real code: lena.structures.hist_functions (get_bin_on_value_1d, get_bin_on_value, check_edges_increasing,
-init_bins), lena.structures.histogram (__init__, fill, get_nevents), lena.structures.Histogram (fill, compute).
+init_bins), lena.structures.histogram (__init__, fill), lena.structures.Histogram (__init__, fill).
 Model: lean/LenaModel/Model/C06.lean, theorems lean/LenaModel/Props/C06.lean.
 
 Numbers: a case holds the real Python numbers (ints and floats; JSON round-trips both exactly).  For the model,
@@ -41,7 +41,6 @@ THEOREMS = [
     "Lena.C06.fillAll_conserves",
     "Lena.C06.fillAll_ok",
     "Lena.C06.weight_conserved",
-    "Lena.C06.getNevents_eq",
     "Lena.C06.checkEdgesIncreasing_ok",
     "Lena.C06.checkEdgesIncreasing_err",
     "Lena.C06.mkHist_valid",
@@ -54,7 +53,7 @@ THEOREMS = [
 TRUSTED = [
     "Lean 4.33.0 kernel; axioms limited to propext, Classical.choice, Quot.sound (audited by #print axioms on every run)",
     "hand transcription of get_bin_on_value_1d, get_bin_on_value, check_edges_increasing, init_bins, histogram.__init__/"
-    "fill/get_nevents and Histogram.fill/compute into LenaModel/Model/C06.lean (plus NArr.lean), validated by this "
+    "fill and Histogram.__init__/fill into LenaModel/Model/C06.lean (plus NArr.lean), validated by this "
     "correspondence check",
     "the float interpolation guess of get_bin_on_value_1d is a parameter of the model; the harness supplies its value at "
     "the search states visited by evaluating the expression of hist_functions.py:206-210 on the case's numbers",
@@ -75,8 +74,8 @@ RULE = ("cases: (bin1d) one edge array (2..12 edges; families: uniform ints/floa
         "every edge, its two floating-point neighbours, integer neighbours, midpoints, values far outside and random values; "
         "(hist) a histogram of 1-3 dimensions (flat and nested edge formats, initial value or given bins, valid and invalid "
         "edges/bins/coordinate forms) filled with a sequence of such coordinates and integer/dyadic weights of both signs, "
-        "observed after every fill (index list, changed cells, n_out_of_range), finally bins and get_nevents; (elem) the same "
-        "through the Histogram element with and without contexts. quick: about 60 k filled points per seed, thorough: "
+        "observed after every fill (index list, changed cells, n_out_of_range), finally bins and n_out_of_range; (elem) the "
+        "same through the Histogram element with and without contexts (state read from _hist/_cur_context). quick: about 60 k filled points per seed, thorough: "
         "about 2.2 M. Non-trivial: at least one value landed in a cell and at least one search needed an interpolation guess, "
         "or an exception was raised.")
 CASE_TIMEOUT = 10
@@ -488,11 +487,6 @@ def run_impl(case):
             res["steps"].append(step)
         res["bins"] = _sc_nested(h.bins)
         res["oor"] = _scaled(h.n_out_of_range)
-        try:
-            res["nev"] = _scaled(h.get_nevents(include_out_of_range=True))
-            res["nev_in"] = _scaled(h.get_nevents())
-        except Exception as e:
-            res["nev"] = res["nev_in"] = {"e": exc_name(e)}
         res["edges_same"] = h.edges == case["edges"] and type(h.edges) is type(case["edges"])
         return res
     if op == "elem":
@@ -514,19 +508,17 @@ def run_impl(case):
                     el.fill(c)
         except Exception as e:
             return {"e": exc_name(e), "phase": "fill"}
-        ys = list(el.compute())
-        if len(ys) != 1:
-            return {"n_yield": len(ys)}
-        h, cx = ys[0]
-        res = {"bins": _sc_nested(h.bins), "oor": _scaled(h.n_out_of_range),
-               "ctx": cx.get("k") if isinstance(cx, dict) else "not-a-dict",
-               "ctx_keys": sorted(cx) if isinstance(cx, dict) else None,
-               "edges_same": h.edges == case["edges"]}
-        try:
-            res["nev"] = _scaled(h.get_nevents(include_out_of_range=True))
-        except Exception as e:
-            res["nev"] = {"e": exc_name(e)}
-        return res
+        # the state that Histogram.fill maintains is read directly (compute() belongs to C04/C09); if the private
+        # attributes are renamed, fall back to what compute() yields
+        h, cx = getattr(el, "_hist", None), getattr(el, "_cur_context", None)
+        if h is None or cx is None:
+            ys = list(el.compute())
+            if len(ys) != 1:
+                return {"n_yield": len(ys)}
+            h, cx = ys[0]
+        return {"bins": _sc_nested(h.bins), "oor": _scaled(h.n_out_of_range),
+                "ctx": cx.get("k") if isinstance(cx, dict) else "not-a-dict",
+                "edges_same": h.edges == case["edges"]}
     raise ValueError(op)
 
 
@@ -682,7 +674,7 @@ def compare(case, res, replies):
                 continue
             if a["idx"] != b["idx"] or a["chg"] != b["chg"] or a["oor"] != b["oor"]:
                 return f"fill #{i} {f}: impl {a} vs model {b}"
-        for k in ("bins", "oor", "nev", "nev_in"):
+        for k in ("bins", "oor"):
             if res[k] != m[k]:
                 return f"final {k}: impl {res[k]} vs model {m[k]}"
         # the model's fillAll (the whole sequence; the first exception ends it)
@@ -853,9 +845,6 @@ def oracle(case, res):
         if o is None or s + o != init_total + total_w:
             return (f"sum of all bins ({s / SCALE}) + n_out_of_range ({res['oor']}/{SCALE}) differs from the initial content "
                     f"({init_total / SCALE}) plus the total filled weight ({total_w / SCALE})")
-        if isinstance(res["nev"], dict) or _num(res["nev"]) != init_total + total_w:
-            return (f"get_nevents(include_out_of_range=True) = {res['nev']}/{SCALE}, expected "
-                    f"{(init_total + total_w) / SCALE}")
         return None
     if op == "elem":
         if any(proper(f) is None for f in case["fills"]):
@@ -880,8 +869,6 @@ def oracle(case, res):
         s, o = _total(res["bins"]), _num(res["oor"])
         if o is None or s + o != init_total + n * SCALE:
             return f"element: sum of bins + n_out_of_range = {(s + (o or 0)) / SCALE}, filled {n} values"
-        if not isinstance(res["nev"], dict) and _num(res["nev"]) != init_total + n * SCALE:
-            return f"element: get_nevents(True) = {res['nev']}/{SCALE}, filled {n} values"
         # (the yielded context is observed for the correspondence only: contexts are the subject of C04/C09)
         if not res.get("edges_same", True):
             return f"edges changed by filling: {case['edges']!r}"
